@@ -318,3 +318,5 @@ def crash_sig(case, ex, where, tb):
     rng = random.Random(case["seed"])
     kind = rng.choice(KINDS)
     return "C10_crash:%s:%s@%s" % (kind, type(ex).__name__, where)
+
+RULE += (" " + 'Integer-valued functions and functions at magnitudes 1e-15..1e6 (tolerances homogeneous in the function).')
